@@ -305,3 +305,33 @@ benign('C10', 'gear-validation-reordered', RL, """    if master == slave:
 """)
 benign('C10', 'gear-assignments-reordered', RL, "    master.drives = slave\n    master.mating_role = MatingMaster\n    slave.driven_by = master\n    slave.mating_role = MatingSlave\n    slave.master_gear_ratio = slave.n_teeth/master.n_teeth", "    slave.driven_by = master\n    slave.mating_role = MatingSlave\n    master.drives = slave\n    master.mating_role = MatingMaster\n    slave.master_gear_ratio = slave.n_teeth/master.n_teeth")
 benign('C10', 'worm-efficiency-explicit-check', RL, "    slave.master_gear_efficiency = efficiency\n    master.drives = slave", "    if efficiency > 1 or efficiency < 0:\n        raise ValueError('Computed efficiency out of range.')\n    master.drives = slave\n    slave.master_gear_efficiency = efficiency")
+
+TM = 'gearpy/sensors/timer.py'
+RA = 'gearpy/motor_control/rules/reach_angular_position.py'
+RU = 'gearpy/motor_control/rules/utils.py'
+SLC = 'gearpy/motor_control/rules/start_limit_current.py'
+SPP = 'gearpy/motor_control/rules/start_proportional_to_angular_position.py'
+CP = 'gearpy/motor_control/rules/constant_pwm.py'
+# ------------------------------------------------------------------------------------------ C15
+mutant('C15', 'timer-start-exclusive', TM, "return (current_time >= self.start_time) and \\", "return (current_time > self.start_time) and \\", 'C15.window')
+mutant('C15', 'timer-end-exclusive', TM, "((current_time - self.start_time) <= self.duration)", "((current_time - self.start_time) < self.duration)", 'C15.window')
+mutant('C15', 'timer-absolute-end', TM, "((current_time - self.start_time) <= self.duration)", "(current_time <= self.duration)", 'C15.window')
+mutant('C15', 'constant-previous-instant', CP, "self.__powertrain.time[-1]", "self.__powertrain.time[-2]", 'C15.window')
+mutant('C15', 'constant-inverted', CP, "        if self.__timer.is_active(current_time=self.__powertrain.time[-1]):", "        if not self.__timer.is_active(current_time=self.__powertrain.time[-1]):", 'C15.window')
+mutant('C15', 'reach-window-strict', RA, "        if angular_position >= braking_starting_angle:", "        if angular_position > braking_starting_angle:", 'C15.value')
+mutant('C15', 'reach-start-sign', RA, "            self.__braking_angle + regime_angular_position_error", "            self.__braking_angle - regime_angular_position_error", 'C15.value')
+mutant('C15', 'reach-value-from-target', RA, "            return 1 - (angular_position - braking_starting_angle) / \\", "            return 1 - (angular_position - self.__target_angular_position) / \\", 'C15.value')
+mutant('C15', 'static-error-times-eta', RU, "            (load_torque/maximum_torque)/powertrain_efficiency", "            (load_torque/maximum_torque)*powertrain_efficiency", 'C15.value')
+mutant('C15', 'pwm-min-drops-i0-term', RU, "    ) + no_load_electric_current/maximum_electric_current", "    )", 'C15.value')
+mutant('C15', 'pwm-min-current-ratio', RU, "        (maximum_electric_current - no_load_electric_current) /\n        maximum_electric_current", "        (maximum_electric_current + no_load_electric_current) /\n        maximum_electric_current", 'C15.value')
+mutant('C15', 'proportional-window', SPP, "        if angular_position <= self.__target_angular_position:", "        if angular_position < self.__target_angular_position:", 'C15.value')
+mutant('C15', 'proportional-ramp', SPP, "            return (1 - pwm_min)*angular_position / \\", "            return (1 + pwm_min)*angular_position / \\", 'C15.value')
+mutant('C15', 'proportional-ignores-multiplier', SPP, "computed_pwm_min = self.__pwm_min_multiplier*_compute_pwm_min(", "computed_pwm_min = _compute_pwm_min(", 'C15.value')
+mutant('C15', 'limit-window-ge', SLC, "        if angular_position <= self.__target_angular_position:", "        if angular_position >= self.__target_angular_position:", 'C15.window')
+mutant('C15', 'limit-root-minus', SLC, "                speed_ratio + electric_ratio + np.sqrt(", "                speed_ratio + electric_ratio - np.sqrt(", 'C15')
+mutant('C15', 'limit-2i0-to-i0', SLC, "                            2*no_load_electric_current", "                            no_load_electric_current", 'C15')
+mutant('C15', 'limit-speed-ratio-inverted', SLC, "        speed_ratio = angular_speed/no_load_speed", "        speed_ratio = no_load_speed/angular_speed", 'C15')
+mutant('C15', 'motor-current-law-changed-under-rule', DC, "(self.driving_torque/maximum_torque) + no_load_electric_current", "(self.driving_torque/maximum_torque) - no_load_electric_current", 'C15.limit-identity')
+benign('C15', 'limit-half-factor', SLC, "            return 1/2*(", "            return 0.5*(")
+benign('C15', 'reach-rename', RA, "regime_angular_position_error", "static_err")
+benign('C15', 'timer-rewritten-end', TM, "((current_time - self.start_time) <= self.duration)", "(current_time <= self.start_time + self.duration)")
